@@ -32,8 +32,10 @@ def cursor_phase(res, tier, seed):
     known_hits = 0
     steps = 0
     known = C.known_findings("C10")
-    for name, ops in scripts:
-        r = seq.run_script("c10", ops, name=name)
+    from concurrent.futures import ThreadPoolExecutor
+    with ThreadPoolExecutor(max_workers=12) as ex:
+        ran = list(ex.map(lambda no: seq.run_script("c10", no[1], name=no[0]), scripts))
+    for (name, ops), r in zip(scripts, ran):
         if r.error:
             res.violation("cursor script crashed the implementation: " + r.error, dict(kind="crash", script=ops, tag="c10"))
             continue
